@@ -295,6 +295,16 @@ def rDrop (s : St) (r : Nat) : St × Res :=
       | .async => rxCloseInternal s r
     ({ s1 with rxs := modAt s1.rxs r (fun x => { x with live := false, disc := true }) }, .unit)
 
+/-- the receiver built by `Clone` when the dispatcher is reachable -/
+def freshRx (x : Rx) : Rx :=
+  { kind := x.kind, cap := x.cap, buf := [], disc := false, droppedCnt := 0,
+    subs := [], closed := false, hasDisp := true, live := true }
+
+/-- the "dead receiver" built by `Clone` when the dispatcher is gone -/
+def deadRx (x : Rx) : Rx :=
+  { kind := x.kind, cap := 0, buf := [], disc := false, droppedCnt := 0,
+    subs := [], closed := true, hasDisp := false, live := true }
+
 /-- `Clone`: a fresh mailbox of the same capacity, empty local set, then `subscribe` for every
 topic of the original; if the dispatcher is gone a "dead" receiver (capacity 0, closed, no
 dispatcher, mailbox NOT disconnected) -/
@@ -304,14 +314,10 @@ def rClone (s : St) (r : Nat) : St × Res :=
   | some x =>
     let n := s.rxs.length
     if upgradable s x then
-      let fresh : Rx := { kind := x.kind, cap := x.cap, buf := [], disc := false, droppedCnt := 0,
-                          subs := [], closed := false, hasDisp := true, live := true }
-      let s1 := { s with rcount := wrapInc s.rcount, rxs := s.rxs ++ [fresh] }
+      let s1 := { s with rcount := wrapInc s.rcount, rxs := s.rxs ++ [freshRx x] }
       (x.subs.foldl (fun s t => subscribeCore s n t) s1, .handle n)
     else
-      let dead : Rx := { kind := x.kind, cap := 0, buf := [], disc := false, droppedCnt := 0,
-                         subs := [], closed := true, hasDisp := false, live := true }
-      ({ s with rxs := s.rxs ++ [dead] }, .handle n)
+      ({ s with rxs := s.rxs ++ [deadRx x] }, .handle n)
 
 /-- `to_async` / `to_sync` of a receiver build the new handle with `closed: false` -/
 def rConv (s : St) (r : Nat) : St × Res :=
@@ -461,21 +467,24 @@ def recvTarget : Op → Option Nat
   | .tryRecv r | .recv r | .recvTimeout0 r | .pollNext r => some r
   | _ => none
 
-def gstep (g : TopicSpec) (op : Op) : TopicSpec × Res :=
-  let (s', res) := step g.st op
+/-- bookkeeping for one executed step: `s'`/`res` are the model's new state and result -/
+def gnext (g : TopicSpec) (op : Op) (s' : St) (res : Res) : TopicSpec :=
   match op, res with
   | .send _ t v, .ok =>
     let i := g.pubs.length
-    ({ st := s',
-       pubs := g.pubs ++ [{ t := t, v := v, subscribed := fun r => subscribedTo g.st r t,
-                            full := fun r => mailboxFull g.st r }],
-       acc := fun r => if (bufOf s' r).length = (bufOf g.st r).length + 1 then g.acc r ++ [i] else g.acc r,
-       got := g.got }, res)
+    { st := s',
+      pubs := g.pubs ++ [{ t := t, v := v, subscribed := fun r => subscribedTo g.st r t,
+                           full := fun r => mailboxFull g.st r }],
+      acc := fun r => if (bufOf s' r).length = (bufOf g.st r).length + 1 then g.acc r ++ [i] else g.acc r,
+      got := g.got }
   | op, .msg t v =>
     match recvTarget op with
-    | some r => ({ g with st := s', got := fun q => if q = r then g.got q ++ [(t, v)] else g.got q }, res)
-    | none => ({ g with st := s' }, res)
-  | _, _ => ({ g with st := s' }, res)
+    | some r => { g with st := s', got := fun q => if q = r then g.got q ++ [(t, v)] else g.got q }
+    | none => { g with st := s' }
+  | _, _ => { g with st := s' }
+
+def gstep (g : TopicSpec) (op : Op) : TopicSpec × Res :=
+  (gnext g op (step g.st op).1 (step g.st op).2, (step g.st op).2)
 
 def ginit (cap : Nat) (k : Kind) : TopicSpec :=
   { st := init cap k, pubs := [], acc := fun _ => [], got := fun _ => [] }
